@@ -10,5 +10,6 @@ func (m *Manager) GetWAL() *wal.WAL {
 	m.mu.RLock()
 	defer m.mu.RUnlock()
 
-	return m.wal
+	// rotateWAL replaces the pointer atomically and not always under m.mu
+	return m.getWAL()
 }
